@@ -10,10 +10,11 @@ MODULE = "TraceGrammar"
 
 
 def generate(rng, tier, shard, nshards):
+    event = gops.variant_event(rng)
     for G in fam.tlc_family(shard, nshards):        # (C) the exhaustive family enumerated by TLC, both back-ends
         for alg in ("earley", "cky"):
             for ctx in fam.strings(G["V"], 2):
-                yield gops.event("mask", {"sr": "Bool", "G": G, "ctx": list(ctx), "alg": alg}, site=f"BoolCFGLM[{alg}].p_next",
+                yield event("mask", {"sr": "Bool", "G": G, "ctx": list(ctx), "alg": alg}, site=f"BoolCFGLM[{alg}].p_next",
                                  feat="tlc-family")
     # left-corner cycles through the start symbol with re-entry (the predictive filter of the Earley back-end):
     # many grammars, short contexts, three rule orders each
@@ -24,7 +25,7 @@ def generate(rng, tier, shard, nshards):
             G, _ = cfg_proj(g)
             for alg in ("earley", "cky"):
                 for ctx in fam.strings(g.V, 2):
-                    yield gops.event("mask", {"sr": "Bool", "G": G, "ctx": [str(x) for x in ctx], "alg": alg},
+                    yield event("mask", {"sr": "Bool", "G": G, "ctx": [str(x) for x in ctx], "alg": alg},
                                      site=f"BoolCFGLM[{alg}].p_next", feat="ring/" + fam.feature_key(g))
     for gi in range(6 if tier == "quick" else 40):
         # two unary cycles joined by a bridge; integer (byte) terminals with a vocabulary larger than what the rules use
@@ -41,7 +42,7 @@ def generate(rng, tier, shard, nshards):
         G, _ = cfg_proj(g)
         for alg in ("earley", "cky"):
             for ctx in fam.strings(sorted(g.V)[:3], 2):
-                yield gops.event("mask", {"sr": "Bool", "G": G, "ctx": gops.seq(ctx), "alg": alg, "names": "str"},
+                yield event("mask", {"sr": "Bool", "G": G, "ctx": gops.seq(ctx), "alg": alg, "names": "str"},
                                  site=f"BoolCFGLM[{alg}].p_next", feat=ft + "/" + fam.feature_key(g))
     n = 14 if tier == "quick" else 140
     L = 3 if tier == "quick" else 4
@@ -57,7 +58,7 @@ def generate(rng, tier, shard, nshards):
         if gi % 4 == 1:
             g = fam.permuted(g, rng)
         G, _ = cfg_proj(g)
-        yield gops.event("mapbool", {"sr": srn, "G": G, "L": 3, "names": names}, site="map_values(Boolean)", feat=feat)
+        yield event("mapbool", {"sr": srn, "G": G, "L": 3, "names": names}, site="map_values(Boolean)", feat=feat)
         ctxs = [[str(x) for x in c] for c in fam.strings(g.V, L)]
         ctxs += [[gops.EOS_NAME], [sorted(g.V)[0], gops.EOS_NAME], [gops.EOS_NAME, sorted(g.V)[0]]]
         for alg in ("earley", "cky"):
@@ -67,7 +68,7 @@ def generate(rng, tier, shard, nshards):
                 if rng.random() < 0.3:       # earlier queries on the same LM object, incl. dead extensions of ctx
                     args["warm"] = [ctx + [t] for t in sorted(g.V)][: rng.randint(1, 2)] + [rng.choice(ctxs)]
                     f2 = feat + "+history"
-                yield gops.event("mask", args, site=f"BoolCFGLM[{alg}].p_next", feat=f2)
+                yield event("mask", args, site=f"BoolCFGLM[{alg}].p_next", feat=f2)
 
 
 def selftests(events, rng):
